@@ -45,11 +45,11 @@ Fixpoint zinsert (x : Z) (l : list Z) : list Z :=
 Definition zsort (l : list Z) : list Z := fold_right zinsert [] l.
 (* canonical observation: the released ids sorted (the implementation side decodes a multiset) *)
 Definition canon (ob : list Z) : list Z := firstn 4 ob ++ zsort (skipn 4 ob).
-Definition run_case_c (v : variant) (a : acckind) (accum : bool) (nm : Z) (ops : list op) : list (list Z) :=
-  let s0 := init_state v a nm 10%Z 1%Z 1%Z false false accum in
+Definition run_case_c (v : variant) (a : acckind) (accum secure : bool) (nm : Z) (ops : list op) : list (list Z) :=
+  let s0 := init_state v a nm 10%Z 1%Z 1%Z false secure accum in
   map canon (observe s0 ops) ++ [hist_flat (run ops s0)].
-Fixpoint bad_idx_c (i : nat) (cs : list (variant * acckind * bool * Z * list op * list (list Z))) : list nat :=
+Fixpoint bad_idx_c (i : nat) (cs : list (variant * acckind * bool * bool * Z * list op * list (list Z))) : list nat :=
   match cs with
   | [] => []
-  | (v, a, ac, nm, ops, want) :: r => (if lleq (run_case_c v a ac nm ops) want then [] else [i]) ++ bad_idx_c (S i) r
+  | (v, a, ac, sec, nm, ops, want) :: r => (if lleq (run_case_c v a ac sec nm ops) want then [] else [i]) ++ bad_idx_c (S i) r
   end.
